@@ -859,7 +859,8 @@ pub fn run_async<M: Shape + ?Sized>(c: &IoCase) -> IoTrace {
 // threaded blocking run (two real threads over a Mutex+Condvar pipe)
 
 pub struct TPipe {
-    pub buf: std::sync::Mutex<(std::collections::VecDeque<u8>, bool)>,
+    /// (bytes written so far, read position, closed); plain memcpy only: padding bytes of messages may be uninitialised
+    pub buf: std::sync::Mutex<(Vec<u8>, usize, bool)>,
     pub cv: std::sync::Condvar,
     pub cap: usize,
 }
@@ -871,13 +872,13 @@ impl io::Write for TWriter {
             return Ok(0);
         }
         let mut g = self.0.buf.lock().unwrap();
-        while g.0.len() >= self.0.cap {
+        while g.0.len() - g.1 >= self.0.cap {
             g = self.0.cv.wait(g).unwrap();
         }
         let lim = if self.1.is_empty() { b.len() } else { self.1[self.2 % self.1.len()].max(1) };
         self.2 += 1;
-        let k = b.len().min(self.0.cap - g.0.len()).min(lim);
-        g.0.extend(b[..k].iter().copied());
+        let k = b.len().min(self.0.cap - (g.0.len() - g.1)).min(lim);
+        g.0.extend_from_slice(&b[..k]);
         self.0.cv.notify_all();
         drop(g);
         std::thread::yield_now();
@@ -890,25 +891,25 @@ impl io::Write for TWriter {
 impl Drop for TWriter {
     fn drop(&mut self) {
         let mut g = self.0.buf.lock().unwrap();
-        g.1 = true;
+        g.2 = true;
         self.0.cv.notify_all();
     }
 }
 impl io::Read for TReader {
     fn read(&mut self, b: &mut [u8]) -> io::Result<usize> {
         let mut g = self.0.buf.lock().unwrap();
-        while g.0.is_empty() && !g.1 {
+        while g.0.len() == g.1 && !g.2 {
             g = self.0.cv.wait(g).unwrap();
         }
-        if g.0.is_empty() {
+        if g.0.len() == g.1 {
             return Ok(0);
         }
         let lim = if self.1.is_empty() { b.len() } else { self.1[self.2 % self.1.len()].max(1) };
         self.2 += 1;
-        let k = b.len().min(g.0.len()).min(lim);
-        for x in b[..k].iter_mut() {
-            *x = g.0.pop_front().unwrap();
-        }
+        let k = b.len().min(g.0.len() - g.1).min(lim);
+        let start = g.1;
+        b[..k].copy_from_slice(&g.0[start..start + k]);
+        g.1 += k;
         self.0.cv.notify_all();
         drop(g);
         std::thread::yield_now();
@@ -917,7 +918,7 @@ impl io::Read for TReader {
 }
 
 pub fn run_threaded<M: Shape + ?Sized>(c: &IoCase) -> IoTrace {
-    let pipe = Arc::new(TPipe { buf: std::sync::Mutex::new((Default::default(), false)), cv: std::sync::Condvar::new(), cap: c.capacity.max(1) });
+    let pipe = Arc::new(TPipe { buf: std::sync::Mutex::new((Vec::new(), 0, false)), cv: std::sync::Condvar::new(), cap: c.capacity.max(1) });
     let (p1, p2) = (pipe.clone(), pipe);
     let msgs = c.msgs.clone();
     let (max, wch, rch) = (c.max_msg_len, c.wchunks.clone(), c.rchunks.clone());
